@@ -85,6 +85,37 @@ func c20(c *Ctx) {
 					vOK = true
 				}
 			}
+			// the VAA whose emitter is compared: every leaf of that value is nil (not decoded yet)
+			// or the result of Unmarshal(vaaBytes) — whatever the variable is called
+			for _, f := range fs {
+				x, _, y, isCmp := cmpOf(f)
+				if !isCmp {
+					continue
+				}
+				for _, side := range []ssa.Value{x, y} {
+					ld, ok := strip(side).(*ssa.UnOp)
+					if !ok {
+						continue
+					}
+					fa, ok := ld.X.(*ssa.FieldAddr)
+					if !ok || fieldOfAddr(fa).Name() != "EmitterChain" {
+						continue
+					}
+					good, nl := true, 0
+					for _, leaf := range phiLeaves(fa.X) {
+						if isNilConst(leaf) {
+							continue
+						}
+						nl++
+						if facts.Term(leaf) != "N/vaa.Unmarshal(vaaBytes)#0" {
+							good = false
+						}
+					}
+					if good && nl > 0 {
+						vOK = true
+					}
+				}
+			}
 			// v may have been decoded in an earlier iteration (cached); then the phi's leaves are nil or that call
 			eachInstr(pub, func(i ssa.Instruction) {
 				if ph, ok := i.(*ssa.Phi); ok && facts.LocalName(ph.Parent(), ph.Comment) == "v" {
@@ -131,7 +162,7 @@ func c20(c *Ctx) {
 	})
 	R.Check("C20.match", "C20.match/Publish/enumerates-all", c.rel(p.Pos(pub.Pos())), "Publish ranges over the whole subscription map", rangesSubs, "no range over s.subs")
 	for _, r := range acceptingReturns(pub) {
-		fs := facts.Atoms(facts.At(r, nil))
+		fs := facts.Atoms(acceptFacts(r))
 		ok := false
 		for _, a := range fs {
 			if a == "!next(range(s.subs))#0" {
@@ -141,7 +172,7 @@ func c20(c *Ctx) {
 		R.Check("C20.match", R.Key("C20.match", shortFn(pub), "normal-return"), c.rel(p.Pos(instrPos(r))), "Publish returns normally only after the range over all subscriptions is exhausted", ok, "a nil return is reachable from inside the delivery loop: "+strings.Join(fs, ";"))
 	}
 	for _, r := range nonAcceptingReturns(pub) {
-		fs := facts.Atoms(facts.At(r, nil))
+		fs := facts.Atoms(acceptFacts(r))
 		ok := false
 		for _, a := range fs {
 			if a == "N/vaa.Unmarshal(vaaBytes)#1 != nil" {
